@@ -36,7 +36,7 @@ META = {
             "every sleeper on the word).",
 }
 
-PUSH = "PpNnX"
+PUSH = "PpNnXH"
 POP = "OoMmUYD"
 
 
@@ -187,9 +187,23 @@ def gen_big(rng, focus):
                     n = 1 if kind in "Pp" else 1 + rng.below(cap)
                     th.append((kind, v.take(n), None))
             threads.append(th)
+        # a slow producer (H: its callback holds a claimed index unpublished until a timed pop has returned) next to
+        # a fast one that publishes the later indices: the timed pop must come back by its deadline with the ready
+        # prefix, it may not wait for the hole
+        hole = cap >= 2 and rng.chance(1, 2)
+        if hole:
+            fast = []
+            for _ in range(1 + rng.below(3)):
+                n = 1 + rng.below(cap)
+                fast.append(("P", v.take(1), None) if n == 1 else ("N", v.take(n), None))
+            slow = [("P", v.take(1), None) for _ in range(rng.below(2))] + [("H", v.take(1), None)]
+            threads = [slow, fast]
         th = []
         for _ in range(1 + rng.below(4)):
-            th.append(("U", rng.choice([1, cap, 1 + rng.below(cap)]), rng.below(3)))
+            n = rng.choice([1, cap, 1 + rng.below(cap)])
+            if hole and rng.chance(2, 3):
+                n = 1 + rng.below(cap - 1)
+            th.append(("U", n, rng.below(4) if hole else rng.below(3)))
         th.append(("D", None, None))
         threads.append(th)
     else:  # comp
@@ -243,6 +257,13 @@ AIMED_BIG = [
     (0, "A000:5,P011:1|U001:1:2,D001"),
     (1, "A000:8,N011:1;2|U001:2:3,D001"),
     (0, "P011:1,A000:3,P011:2|U001:1:1,U001:1:2,D001"),
+    # slow producer holding an unpublished index (H) while a fast one publishes the slot the timed pop waits on
+    (1, "H111:1|P111:2|U001:1:2,D001"),
+    (2, "H111:1|P111:2,P111:3|U001:2:3,D001"),
+    (2, "H111:1|N111:2;3;4|U001:3:3,D001"),
+    (2, "P111:1,H111:2|P111:3,P111:4,P111:5|U001:2:2,U001:3:3,D001"),
+    (1, "H101:1|P101:2|U000:1:3,U000:1:0,D000"),
+    (3, "H111:1|N111:2;3,N111:4;5;6|U001:4:3,U001:2:1,D001"),
 ]
 
 
@@ -250,7 +271,7 @@ def model_prog(threads):
     return "|".join(",".join(t) for t in threads)
 
 
-MON = ["excl", "state", "publish", "conserve", "nodup", "counts", "fifo", "tryjust", "timed", "avail"]
+MON = ["excl", "state", "publish", "conserve", "nodup", "counts", "fifo", "tryjust", "timed", "avail", "prefix"]
 WHAT = {"excl": "two callbacks held the same payload cell at the same time",
         "state": "a producer callback got a cell whose value was never consumed / a consumer callback got an empty cell",
         "publish": "a consumer read a value different from the one the producer wrote into the cell",
@@ -261,8 +282,10 @@ WHAT = {"excl": "two callbacks held the same payload cell at the same time",
                 "by ordered pops",
         "tryjust": "a try_ op failed / came up short although no op overlapped it and the queue was not full/empty",
         "timed": "try_pop_n_exclusively_until returned later than its deadline plus scheduling delay",
-        "avail": "try_pop_n_exclusively_until returned fewer elements than were available when it was called"}
-C02_MON = {"timed", "avail"}
+        "avail": "try_pop_n_exclusively_until returned fewer elements than were available when it was called",
+        "prefix": "try_pop_n_exclusively_until returned fewer elements than the leading indices whose push had already "
+                  "returned when it was called"}
+C02_MON = {"timed", "avail", "prefix"}
 
 
 def run(prop, argv, meta_focus):
@@ -306,6 +329,7 @@ def run(prop, argv, meta_focus):
         r = json.load(open(chk.replay))["replay"]
         progs = [("r0", r["k"], r["threads"], r.get("small", False), r.get("nostuck", False))]
         scheds = [(r.get("seed", 1), r.get("strategy", 0))]
+        replay_flags = r.get("flags", 0)
     else:
         seen = set()
         for k, p in AIMED_SMALL:
@@ -334,7 +358,7 @@ def run(prop, argv, meta_focus):
     lines = []
     meta = {}
     for pid, k, th, small, nostuck in progs:
-        yields = any(o[0] in "DXY" for t in th for o in t)
+        yields = any(o[0] in "DXYH" for t in th for o in t)
         for si, (seed, strat) in enumerate(scheds):
             if strat == 1 and yields:
                 strat = 3        # PCT is unfair to sched_yield loops (drain / compensating variants)
@@ -346,8 +370,10 @@ def run(prop, argv, meta_focus):
             # (as if 32767, 32768 or 65535 turns of the ring had passed): outcomes must not depend on the turn
             if si % 4 == 1:
                 spur |= ([1, 2, 3][(si // 4) % 3]) << 1
+            if chk.replay:
+                spur = replay_flags
             lines.append("%s %d %d %d %d %s" % (cid, seed, strat, k, spur, model_prog(th)))
-            meta[cid] = (pid, k, th, small, nostuck, seed, strat)
+            meta[cid] = (pid, k, th, small, nostuck, seed, strat, spur)
     chk.log("%d programs x %d schedules" % (len(progs), len(scheds)))
     impl_out = chk.run_cases(impl, lines, timeout=900) if impl else {}
     chk.log("implementation runs done")
@@ -380,8 +406,9 @@ def run(prop, argv, meta_focus):
     validated = 0
     distinct = set()
     for cid, l in impl_out.items():
-        pid, k, th, small, nostuck, seed, strat = meta[cid]
-        rep = {"k": k, "threads": th, "seed": seed, "strategy": strat, "small": small, "nostuck": nostuck, "impl_line": l}
+        pid, k, th, small, nostuck, seed, strat, spur = meta[cid]
+        rep = {"k": k, "threads": th, "seed": seed, "strategy": strat, "flags": spur, "small": small, "nostuck": nostuck,
+               "impl_line": l}
         if l.startswith("DSCHED-STUCK"):
             kind = "deadlock" if "deadlock" in l.split()[1] else "livelock"
             admitted = small and pid in model_sets and (model_sets[pid][1] or any(o.endswith("#STUCK") for o in model_sets[pid][0]))
@@ -416,7 +443,8 @@ def run(prop, argv, meta_focus):
     chk.cov["rule"] = ("case = (client program, capacity 2^k, schedule seed, strategy); programs: hand-aimed small ones "
                        "(capacity 1/2, futex/spin/!CONCURRENT pairings, ring split, try_ CAS contention, timed pop with "
                        "n = capacity) + seeded random small ones over all modelled op kinds + bigger balanced "
-                       "producer/consumer, try-mix (with drain), timed and compensating programs; flags always satisfy the "
+                       "producer/consumer, try-mix (with drain), timed (also with a slow producer callback holding an unpublished index "
+                       "while later ones are published) and compensating programs; flags always satisfy the "
                        "documented pairing rules; strategies: uniform random, round-robin with random pre-emptions, PCT; "
                        "pre-emption at every atomic op / futex call / inside callbacks; distinct non-trivial = distinct "
                        "(program, observed outcome) pairs; small programs are explored exhaustively in the extracted model "
